@@ -9,9 +9,9 @@ RESET  real DesignRoot::reset (+ reset_affected, get_all_affected, AnalysisLock:
        missing unit name that was added, or the package/body rule - has lost its analysis result; the maps are cleaned up.
 What analysis computes from a unit and its recorded dependencies is the analyser itself and outside this check.
 """
-import json, itertools
+import json, itertools, re
 import z3
-from ..util import Panic, Unsupported
+from ..util import Panic, Unsupported, Infeasible
 from ..values import *
 from ..interp import Violation, Ctx
 from ..models import HMap, HSet, py_str
@@ -485,6 +485,206 @@ def check_reset(state, outcome):
     if outcome['left']: raise Violation('added/removed are not drained by reset', 'cleanup')
 
 
+
+# ------------------------------------------------------------------------------------------------ whole-project histories
+from .analysis_kit import ProjectKit, obs_key, obs_diff, obs_show
+from . import projects as PJ
+
+
+def sym_text(ctx, inp, text, tag):
+    """characters of `text`; every `§` becomes a symbolic letter or digit"""
+    out = []
+    for i, c in enumerate(text):
+        if c != '§': out.append(BV(ord(c), 32)); continue
+        v = inp.bv(f'{tag}c{i}', 32)
+        if inp.symbolic:
+            ctx.assume(z3.Or(z3.And(z3.UGE(v.e, 97), z3.ULE(v.e, 122)), z3.And(z3.UGE(v.e, 65), z3.ULE(v.e, 90)), z3.And(z3.UGE(v.e, 48), z3.ULE(v.e, 57))))
+        out.append(v)
+    return out
+
+
+class ProjHistory(Part):
+    """Project::update_source + Project::analyse after every step  ==  a project freshly loaded from the final contents"""
+    vcap = 4
+    isolate = True
+
+    def __init__(self, name, steps, projects, required=('compared',), time_cap=None):
+        self.name, self.steps, self.projects = name, steps, projects
+        self.required_classes = required
+        self.time_cap = time_cap
+        self.bounds = dict(projects=[p['name'] for p in projects], steps=f'every history of exactly 1..{steps} updates (file, contents) from the loaded state; analysis after every update',
+                           contents='the listed variants per file incl. the empty file; one symbolic letter/digit in a name where a variant has one',
+                           observation='all diagnostics (parser, analysis, both lints; position, code, message, related) and, per file, every reference with the position of the declaration it resolves to',
+                           std='the bundled std library (standard, textio, env), parsed and analysed by the real code; ieee is not loaded')
+
+    def obs(self, chk, ctx, pr, names):
+        kit = chk.pkit
+        d = sorted((kit.diag_obs(x) for x in pr.analyse(ctx)), key=obs_key)
+        refs = tuple((n, tuple(sorted(((r, dcl) for r, dcl, _ in pr.references(ctx, n)), key=obs_key))) for n in names if n in pr.sources)
+        return (tuple(d), refs)
+
+    def load(self, chk, ctx, P, state, texts, copy):
+        """a project as Project::from_config builds it: mapped files parsed in configuration order, then analysed"""
+        kit = chk.pkit
+        pr = kit.new_project(ctx, copy=copy)
+        for lib, fn, _ in P['files']:
+            if lib is None: continue
+            pr.set_text(ctx, '/p/' + fn, texts[fn]); pr.map_file(ctx, '/p/' + fn, lib); pr.update(ctx, '/p/' + fn)
+        return pr
+
+    def base_of(self, chk, pi):
+        if not hasattr(self, '_bases'): self._bases = {}
+        if pi not in self._bases:
+            P = self.projects[pi]
+            ctx = Ctx(); ctx.step_limit = 10 ** 9
+            assert all('§' not in vs[0] for _, _, vs in P['files'])
+            pr = self.load(chk, ctx, P, None, {fn: [BV(ord(c), 32) for c in vs[0]] for lib, fn, vs in P['files']}, copy=True)
+            pr.analyse(ctx)
+            pr.statics = ctx.statics
+            self._bases[pi] = pr
+        return self._bases[pi]
+
+    def run(self, chk, ctx, inp, verify=True):
+        kit = chk.pkit
+        pi = choose(ctx, inp, 'project', len(self.projects)); P = self.projects[pi]
+        n = choose(ctx, inp, 'steps', self.steps) + 1
+        files = P['files']
+        state = {fn: (0 if lib is not None else None) for lib, fn, _ in files}
+        texts = {fn: [BV(ord(c), 32) for c in vs[0]] for lib, fn, vs in files}
+        # the loaded and analysed project is built once per process; a path runs in its own forked process and may use it in place
+        base = self.base_of(chk, pi)
+        if inp.symbolic: inc = base; ctx.statics = base.statics
+        else: inc = base.clone(ctx)
+        dup_seen = False
+        for s in range(n):
+            fi = choose(ctx, inp, f's{s}file', len(files)); lib, fn, vs = files[fi]
+            vi = choose(ctx, inp, f's{s}var', len(vs))
+            if inp.symbolic and state[fn] == vi and '§' not in vs[vi]: raise Infeasible()          # a no-op step: the shorter history covers it
+            state[fn] = vi; texts[fn] = sym_text(ctx, inp, vs[vi], f's{s}')
+            inc.set_text(ctx, '/p/' + fn, texts[fn]); inc.update(ctx, '/p/' + fn)
+            if s < n - 1: inc.analyse(ctx)
+        # the exemption of the property: a unit name defined in two files of one library at this step
+        seen = {}
+        for lib, fn, _ in files:
+            if state[fn] is None: continue
+            for u in P['units'][fn][state[fn]]:
+                k = (lib or 'work', u)
+                if k in seen: dup_seen = True
+                seen[k] = fn
+        names = ['/p/' + fn for lib, fn, _ in files]
+        got = self.obs(chk, ctx, inc, names)
+        if dup_seen:
+            ctx.cover('a unit name defined in two files'); 
+            if verify: return None
+        # from scratch: mapped files first (configuration order), then the unmapped ones that were opened, as a client would
+        fresh = self.load(chk, ctx, P, state, texts, copy=True)
+        for lib, fn, _ in files:
+            if lib is None and state[fn] is not None:
+                fresh.set_text(ctx, '/p/' + fn, texts[fn]); fresh.update(ctx, '/p/' + fn)
+        want = self.obs(chk, ctx, fresh, names)
+        if not verify: return obs_show(got), obs_show(want)
+        r = obs_diff(ctx, got, want)
+        if r:
+            ctx.notes.append(f'project={P["name"]} state={state}')
+            ctx.notes.append('incremental: ' + repr(obs_show(got))[:3000]); ctx.notes.append('fresh: ' + repr(obs_show(want))[:3000])
+            raise Violation(f'after {n} update(s) the incrementally maintained project differs from a freshly loaded one: {r}', 'incremental')
+        ctx.cover('compared')
+        if any(d[1] != 'Unused' and 'Sensitivity' not in d[1] for d in got[0]): ctx.cover('diagnostics present')
+        if any(re.match(r'^s\d+c\d+$', k) for k in ctx.vars): ctx.cover('symbolic name character')
+        return None
+
+    def harness(self, chk):
+        for pi in range(len(self.projects)): self.base_of(chk, pi)
+        def h(ctx): self.run(chk, ctx, SymInputs(ctx))
+        return h
+
+    # ---- native side
+    def texts_of(self, P, w):
+        """(initial texts, [(file, text)] steps, final state) of the history the witness describes, symbolic characters filled in"""
+        def fill(text, tag): return ''.join(chr(w.get(f'{tag}c{i}', 0)) if c == '§' else c for i, c in enumerate(text))
+        files = P['files']
+        init = {fn: vs[0] for lib, fn, vs in files}
+        state = {fn: (0 if lib is not None else None) for lib, fn, _ in files}
+        cur = dict(init); steps = []
+        for s in range(w.get('steps', 0) % self.steps + 1):
+            lib, fn, vs = files[w.get(f's{s}file', 0) % len(files)]
+            vi = w.get(f's{s}var', 0) % len(vs)
+            state[fn] = vi; cur[fn] = fill(vs[vi], f's{s}'); steps.append([fn, cur[fn]])
+        return init, steps, cur, state
+
+    def case_of(self, w):
+        P = self.projects[w.get('project', 0) % len(self.projects)]
+        init, steps, cur, state = self.texts_of(P, w)
+        libs = {}
+        for lib, fn, _ in P['files']:
+            if lib: libs.setdefault(lib, []).append(fn)
+        import os
+        from .. import build
+        return {'dir': os.path.join(build.BUILD, 'scratch', f'c01-{os.getpid()}'), 'std': os.path.join(build.REPO, 'vhdl_libraries', 'std'),
+                'libs': [[k, v] for k, v in libs.items()], 'texts': {fn: init[fn] for lib, fn, _ in P['files'] if lib}, 'steps': steps, 'fresh_texts': cur,
+                'fresh_unmapped': [fn for lib, fn, _ in P['files'] if lib is None and state[fn] is not None], 'names': [fn for _, fn, _ in P['files']],
+                'project': P['name']}
+
+    def has_dup(self, w):
+        P = self.projects[w.get('project', 0) % len(self.projects)]
+        _, _, _, state = self.texts_of(P, w)
+        seen = set()
+        for lib, fn, _ in P['files']:
+            if state[fn] is None: continue
+            for u in P['units'][fn][state[fn]]:
+                if (lib or 'work', u) in seen: return True
+                seen.add((lib or 'work', u))
+        return False
+
+    def replay_case(self, chk, w, v):
+        if self.has_dup(w): return 'the final state defines a unit name in two files (exempt)'
+        for rel in (False, True):
+            out = chk.native.run('projhist', [self.case_of(w)], release=rel)[0]
+            if 'panic' in out: return True
+            if 'incremental' not in out: return f'native replay failed: {out}'
+            if out['incremental'] != out['fresh']: return True
+        return False
+
+    def translator_validation(self, chk):
+        rng = chk.rng; cases = []
+        for pi in range(len(self.projects)):
+            for _ in range(2):
+                w = {'project': pi, 'steps': rng.randrange(self.steps)}
+                for s in range(self.steps): w[f's{s}file'] = rng.randrange(8); w[f's{s}var'] = rng.randrange(6)
+                P = self.projects[pi]
+                for lib, fn, vs in P['files']:
+                    for vtext in vs:
+                        for i, c in enumerate(vtext):
+                            if c == '§':
+                                for tag in [f's{s}' for s in range(self.steps)]: w[f'{tag}c{i}'] = ord(rng.choice('gxcl1P2tL'))
+                cases.append(w)
+        outs = chk.native.run('projhist', [self.case_of(w) for w in cases])
+        bad = []
+        for w, out in zip(cases, outs):
+            ctx = Ctx(); ctx.step_limit = 10 ** 9
+            got, want = self.run(chk, ctx, ConcInputs(ctx, w), verify=False)
+            mine = norm_mine(got); theirs = norm_native(out.get('incremental')) if 'incremental' in out else out
+            if mine != theirs: bad.append({'case': self.case_of(w)['steps'], 'project': self.case_of(w)['project'], 'interpreter': mine, 'native': theirs})
+            elif not self.has_dup(w) and norm_mine(want) != norm_native(out['fresh']):
+                bad.append({'case': self.case_of(w)['steps'], 'project': self.case_of(w)['project'], 'interpreter(fresh)': norm_mine(want), 'native(fresh)': norm_native(out['fresh'])})
+        return len(cases), bad
+
+
+def _bn(p): return p.rsplit('/', 1)[-1]
+
+
+def norm_mine(o):
+    d = sorted([[_bn(x[0][0])] + list(x[0][1:]), x[1], x[2], [[[_bn(r[0][0])] + list(r[0][1:]), r[1]] for r in x[3]]] for x in o[0])
+    r = {_bn(n): sorted([list(a), None if b is None else [_bn(b[0])] + list(b[1:])] for a, b in rs) for n, rs in o[1]}
+    return json.loads(json.dumps({'diagnostics': d, 'references': r}))
+
+
+def norm_native(o):
+    d = sorted([[_bn(x[0][0])] + x[0][1:], x[1], x[2], [[[_bn(r[0][0])] + r[0][1:], r[1]] for r in x[3]]] for x in o['diagnostics'])
+    r = {_bn(n): sorted([a[1:], None if b is None else [_bn(b[0])] + b[1:]] for a, b in rs) for n, rs in o['references']}
+    return {'diagnostics': d, 'references': r}
+
+
 class C01(Check):
     prop = 'C01'
     crates = (L,)
@@ -493,14 +693,17 @@ class C01(Check):
         if hasattr(self, '_parts'): return self._parts
         if not hasattr(self, 'll'): self.ll = LangLex(self)
         if not hasattr(self, 'kit'): self.kit = RootKit(self)
+        if not hasattr(self, 'pkit'): self.pkit = ProjectKit(self, log=self.log)
         req = ('compared', 'a unit name defined in two files', 'reset point')
+        preq = ('compared', 'a unit name defined in two files', 'diagnostics present', 'symbolic name character')
         if self.tier == 'quick':
             ps = [LibHistory('library history, 3 steps over 2 files', 3, nfiles=2, required=req),
                   LibHistory('library history, 2 steps over 3 files', 2, nfiles=3, required=req),
                   LibHistory('3 files pre-loaded (package p / p+q / empty), then 2 steps', 2, nfiles=3, contents=[0, 1, 2], init=True, required=req),
                   ResetStep('reset: 2 symbolic users_of edges x 1 changed file', 2, False, False, required=('compared', 'some unit reset', 'some unit kept')),
                   ResetStep('reset: missing-unit entry x 1 edge x 1 changed file', 1, True, False, required=('compared', 'some unit reset')),
-                  ResetStep('reset: use lib.all entry x 1 edge x 1 changed file', 1, False, True, required=('compared', 'some unit reset'))]
+                  ResetStep('reset: use lib.all entry x 1 edge x 1 changed file', 1, False, True, required=('compared', 'some unit reset')),
+                  ProjHistory('whole projects: update_source + analyse against a fresh load, 1..2 updates', 2, PJ.C01_PROJECTS, required=preq)]
         else:
             ps = [LibHistory('library history, 3 steps over 3 files', 3, nfiles=3, required=req),
                   LibHistory('library history, 4 steps over 2 files', 4, nfiles=2, required=req, contents=[0, 1, 2, 3, 4]),
@@ -508,7 +711,8 @@ class C01(Check):
                   LibHistory('3 files pre-loaded (package p / p+q / empty), then 3 steps', 3, nfiles=3, contents=[0, 1, 2], init=True, required=req),
                   ResetStep('reset: 3 symbolic users_of edges x 1 changed file', 3, False, False, required=('compared', 'some unit reset', 'some unit kept')),
                   ResetStep('reset: missing-unit entry x 2 edges x 1 changed file', 2, True, False, required=('compared', 'some unit reset')),
-                  ResetStep('reset: missing-unit and lib.all entries x 1 edge x 1 changed file', 1, True, True, required=('compared', 'some unit reset'))]
+                  ResetStep('reset: missing-unit and lib.all entries x 1 edge x 1 changed file', 1, True, True, required=('compared', 'some unit reset')),
+                  ProjHistory('whole projects: update_source + analyse against a fresh load, 1..3 updates', 3, PJ.C01_PROJECTS, required=preq)]
         self._parts = ps
         return ps
 
